@@ -25,9 +25,11 @@ set_option linter.unusedVariables false
 
 namespace Taurex.C15Src
 open Taurex.Gen Taurex.Gen.Dyn
-open Taurex.Factory (Scalar Value Config Klass Registry SectionReg Resolved Err Customs Component)
+open Taurex.Factory (Scalar Value Config Klass Registry SectionReg Resolved Err Customs Component Sec InputFile)
 
 abbrev M := Except Exc
+
+deriving instance DecidableEq for Taurex.Factory.Sec
 
 /-- Python floats as the model carries them: decimal literals.  `float(i)` of an int is the model's `toFloat (.int i)`;
     ordering / zero tests of floats are not used by the translated C15 code -/
@@ -59,6 +61,9 @@ inductive Obj where
   | other (repr : String)
   /-- another component of the graph -/
   | ref (what : String)
+  /-- a `ParameterParser` that has read the (typed) input file `f`, and its attribute `_raw_config` (the `ConfigObj`) -/
+  | parser (f : InputFile)
+  | rawConfig (f : InputFile)
   deriving DecidableEq
 
 abbrev V := Dyn.Val Scalar Obj
@@ -80,6 +85,17 @@ def emb : Value → V
 
 /-- a `Config` as the entries of a `dict` -/
 def embCfg (c : Config) : List (V × V) := c.map (fun kv => (.str kv.1, emb kv.2))
+
+/-- the sub-sections of a section as dictionary entries -/
+def subsEmb (subs : List (String × Config)) : List (V × V) :=
+  subs.map (fun sc => (.str sc.1, .dict (embCfg sc.2)))
+
+/-- a section as the Python dictionary: its scalar entries, then its sub-sections (dictionaries) -/
+def embSec (scalars : Config) (subs : List (String × Config)) : List (V × V) :=
+  embCfg scalars ++ subs.map (fun sc => (.str sc.1, .dict (embCfg sc.2)))
+
+/-- `ConfigObj.dict()`: the whole file as a dictionary of sections -/
+def embFile (f : InputFile) : List (V × V) := f.map (fun s => (.str s.1, .dict (embSec s.2.scalars s.2.subs)))
 
 /-- a `Config` as keyword arguments -/
 def embKw (c : Config) : List (String × V) := c.map (fun kv => (kv.1, emb kv.2))
@@ -130,6 +146,8 @@ structure World where
   varkw : Klass → V
   /-- calling an object (constructing a component), for every callable the oracle does not define below -/
   call : Obj → List V → List (String × V) → M V
+  /-- `hasattr(value, name)` -/
+  hasattr : V → String → Bool
 
 def unKlass : V → Option Klass
   | .obj (.klass k) => some k
@@ -175,6 +193,7 @@ def World.ext (w : World) : Ext M Scalar Obj where
       else .error .AttributeError
     | .base n _ => if name = "__name__" then .ok (.str n) else .error .AttributeError
     | .ref _ => if name = "activeGases" then .ok .none else .error .AttributeError
+    | .parser f => if name = "_raw_config" then .ok (.obj (.rawConfig f)) else .error .AttributeError
     | _ => .error .AttributeError
   call o args kw :=
     match o with
@@ -211,6 +230,7 @@ def World.ext (w : World) : Ext M Scalar Obj where
         | [.obj (.init k mx)] => .ok (.obj (.argspec k mx))
         | _ => .error .TypeError
       else .error .AttributeError
+    | .rawConfig f => if name = "dict" then .ok (.dict (embFile f)) else .error .AttributeError
     | _ => .error .AttributeError
   isinst _ _ := false
   iter _ := .error .TypeError
@@ -224,6 +244,10 @@ def World.ext (w : World) : Ext M Scalar Obj where
     else if name = "issubclass" then
       match args with
       | [.obj (.klass k), .obj (.fn "Mixin")] => .ok (.bool k.isMixin)
+      | _ => .error .TypeError
+    else if name = "hasattr" then
+      match args with
+      | [o, .str n] => .ok (.bool (w.hasattr o n))
       | _ => .error .TypeError
     else .error .TypeError
   parseFloat s := Factory.parseNumber s
@@ -289,6 +313,12 @@ theorem ext_getattr_cf (name sec : String) (mix : Bool) (h : cfAttrs.lookup name
     w.ext.call (.klass k) a kw = w.call (.klass k) a kw := rfl
 @[simp] theorem ext_call_mixed (ms : List Klass) (b : Klass) (a : List V) (kw : List (String × V)) :
     w.ext.call (.mixed ms b) a kw = w.call (.mixed ms b) a kw := rfl
+@[simp] theorem ext_hasattr (o : V) (n : String) :
+    w.ext.op "hasattr" [o, .str n] = .ok (.bool (w.hasattr o n)) := rfl
+@[simp] theorem ext_getattr_raw_config (f : InputFile) :
+    w.ext.getattr (.parser f) "_raw_config" = .ok (.obj (.rawConfig f)) := rfl
+@[simp] theorem ext_method_dict (f : InputFile) (a : List V) (kw : List (String × V)) :
+    w.ext.method (.rawConfig f) "dict" a kw = .ok (.dict (embFile f)) := rfl
 
 end
 
